@@ -51,6 +51,7 @@ func evalC02Traced(w *fw.W, s, aux string) {
 }
 
 var htmlOpeners = []string{"", "<", "<a ", "<a b=", "<a href=", "<a href='", "<a style=\"", "<a b='", "<a b=\"", "<a b=`", "<!--", "<![CDATA[", "<%", "<?", "<!", "<!doctype ", "</", "<a/"}
+var c02URLBytes = []string{"&", "#", "x", "X", ";", "0", "9", "a", "F", "g", "j", ":", " ", "\x00", "\x80", "\xff"}
 var htmlClosers = []string{"", ">", "<script>"}
 
 func init() {
@@ -76,6 +77,9 @@ func init() {
 				Run: func(w *fw.W) { w.Trie(alpha.H1core, 6, 7) }, Eval: evalC02Public},
 			{Name: "trie-H2-fragments", Space: "H2^<=4 (quick) / <=5 (thorough), IsXSS + token trace in 5 contexts", Share: 4,
 				Run: func(w *fw.W) { w.Trie(alpha.H2, 1, w.Pick(4, 5)) }, Eval: evalC02Traced},
+			{Name: "trie-url-values", Space: "`<a href=\"` + every string over {& # x X ; 0 9 a F g j : space NUL 0x80 0xff}^<=5 (quick) / <=6 (thorough): character references inside a URL-typed value", Share: 2,
+				Run:  func(w *fw.W) { w.Trie(c02URLBytes, 1, w.Pick(5, 6)) },
+				Eval: func(w *fw.W, s, aux string) { evalC02Public(w, "<a href=\""+s, aux) }},
 			{Name: "corpus-cuts", Space: "every prefix, suffix and prefix+quote of every repository fixture", Share: 1,
 				Run: func(w *fw.W) {
 					w.Each(len(cuts), func(i int) { w.Item(cuts[i], "") })
